@@ -196,30 +196,26 @@ theorem fair_completed_le {c : WfqCfg ℚ} (hp : Pos c) {L : Nat} {s : WState} {
 structure Static (c : WfqCfg ℚ) (L : Nat) (s : WState) : Prop where
   ginv : GInv s
   winv : WInv c s
-  idle : inHand s = [] ∧ s.fin = none
+  /-- nothing has been taken out of the store (a packet that has already left may still await its booking-out) -/
+  idle : inHand s = []
   fl : FairL c L [] s.items
   /-- while packets wait: virtual time is still 0, the last event was now, and the finish time of every class is
   the normalised size of all its packets -/
-  live : s.sch.active ≠ [] → s.sch.vtime = 0 ∧ s.sch.lastTime = s.now ∧
+  live : s.items ≠ [] → s.sch.vtime = 0 ∧ s.sch.lastTime = s.now ∧
     ∀ k w, lookup c.weights k = some w → ∃ F, lookup s.sch.finish k = some F ∧ F * c.rate * w = bitsOf c k (waiting s)
 
-theorem static_of_empty {c : WfqCfg ℚ} {L : Nat} {s : WState} (hg : GInv s) (hw : WInv c s) (he : held' s = []) :
+/-- a scheduler with no packet waiting or in transmission is a static backlog of size 0 -/
+theorem static_of_empty {c : WfqCfg ℚ} {L : Nat} {s : WState} (hg : GInv s) (hw : WInv c s) (he : held s = []) :
     Static c L s := by
-  have hact := hw.active_nil_iff.mpr he
-  have hh : inHand s = [] ∧ waiting s = [] ∧ finL s = [] := by
-    simp only [held', held, List.append_eq_nil_iff] at he
-    exact ⟨he.1.1, he.1.2, he.2⟩
+  have hh : inHand s = [] ∧ waiting s = [] := by
+    simp only [held, List.append_eq_nil_iff] at he
+    exact he
   have hit : s.items = [] := by
-    have := hh.2.1
+    have := hh.2
     simpa [waiting] using this
-  refine ⟨hg, hw, ⟨hh.1, ?_⟩, ?_, fun h => absurd hact h⟩
-  · have := hh.2.2
-    simp only [finL] at this
-    cases hf : s.fin with
-    | none => rfl
-    | some p => rw [hf] at this; simp at this
-  · rw [hit]
-    exact ⟨by simp, by simp, fun _ _ _ => trivial, by simp⟩
+  refine ⟨hg, hw, hh.1, ?_, fun h => absurd hit h⟩
+  rw [hit]
+  exact ⟨by simp, by simp, fun _ _ _ => trivial, by simp⟩
 
 theorem chain_snoc (c : WfqCfg ℚ) (k : Nat) (w S : ℚ) (l : List (Item ℚ)) (y : Item ℚ) :
     Chain c k w S (l ++ [y]) ↔ Chain c k w S l ∧
@@ -238,18 +234,23 @@ theorem step_static {c : WfqCfg ℚ} (hp : Pos c) {L : Nat} {s s' : WState} {p :
   cases ht with
   | put _ sch stamp h1 =>
     refine ⟨?_, rfl⟩
-    obtain ⟨k, st1, f, w, hk, ha, hf, hwt, hz, rfl, rfl⟩ := put_spec c _ _ _ _ _ h1
+    obtain ⟨k, st1, f, w, hk, ha, hf, hwt, hz, rfl, rfl⟩ := put_spec c _ _ _ _ _ _ h1
     have hwpos := hp.w k w hwt
     have hrw := mul_pos hp.rate hwpos
     -- after `advance`: virtual time 0, finish times = normalised class sizes
     have hadv : st1.vtime = 0 ∧ ∀ k' w', lookup c.weights k' = some w' →
         ∃ F, lookup st1.finish k' = some F ∧ F * c.rate * w' = bitsOf c k' (waiting s) := by
-      rcases advance_spec c _ _ _ ha with ⟨hnil, rfl⟩ | ⟨hne, _, _, rfl⟩
-      · have hit := h.winv.items_nil hnil
+      rcases advance_spec c _ _ _ _ ha with ⟨h0, rfl⟩ | ⟨hne, _, _, rfl⟩
+      · have hit := h.winv.items_nil_of_total h0
         refine ⟨by simp [resetVtime, zero_eq_q], ?_⟩
         intro k' w' hw'
         exact ⟨0, by simp [resetVtime, lookup_zeroFinish, hw'], by simp [waiting, hit]⟩
-      · obtain ⟨hv, hl, hfin⟩ := h.live hne
+      · have hitems : s.items ≠ [] := by
+          intro hc
+          apply hne
+          apply h.winv.tot.zero_iff.mpr
+          simp [held, h.idle, waiting, hc]
+        obtain ⟨hv, hl, hfin⟩ := h.live hitems
         refine ⟨?_, hfin⟩
         simp only [hv, hl, sub_self, zero_div, add_zero]
     obtain ⟨F0, hF0, hF0e⟩ := hadv.2 k w hwt
@@ -275,7 +276,7 @@ theorem step_static {c : WfqCfg ℚ} (hp : Pos c) {L : Nat} {s s' : WState} {p :
       have : stampOf c f st1.vtime w p.size * (c.rate * w) < 0 := mul_neg_of_neg_of_pos (not_le.mp hneg) hrw
       linarith [mul_assoc (stampOf c f st1.vtime w p.size) c.rate w]
     refine ⟨hg', hw', ?_, ?_, ?_⟩
-    · exact ⟨by simpa [inHand, enqueue] using h.idle.1, by simpa [enqueue] using h.idle.2⟩
+    · simpa [inHand, enqueue] using h.idle
     · refine ⟨?_, ?_, ?_, ?_⟩
       · intro it hit
         simp only [enqueue, List.mem_append, List.mem_singleton] at hit
@@ -330,9 +331,9 @@ theorem step_static {c : WfqCfg ℚ} (hp : Pos c) {L : Nat} {s s' : WState} {p :
 /-- after the arrivals, `Fair` holds with nothing taken yet -/
 theorem Static.fair {c : WfqCfg ℚ} {L : Nat} {s : WState} (h : Static c L s) : Fair c L s [] := by
   refine ⟨h.ginv.shape, ?_, ?_, ?_⟩
-  · rw [h.idle.1]; exact h.fl
-  · intro m hm; rw [h.idle.1] at hm; simp at hm
-  · intro m hm; rw [h.idle.1] at hm; simp at hm
+  · rw [h.idle]; exact h.fl
+  · intro m hm; rw [h.idle] at hm; simp at hm
+  · intro m hm; rw [h.idle] at hm; simp at hm
 
 /-- arrivals at one instant into an empty scheduler, then any admissible continuation without arrivals -/
 theorem static_run {c : WfqCfg ℚ} (hp : Pos c) {L : Nat} (ps : List SPkt) (hps : ∀ p ∈ ps, 0 < p.size ∧ p.size ≤ L)
